@@ -72,6 +72,26 @@ func accessorChain(v ssa.Value) (chain string, root ssa.Value, ok bool) {
 		return ch + "." + fname, rt, ok
 	case *ssa.IndexAddr:
 		return "", x.X, true
+	case *ssa.Parameter:
+		// the element handed to a predicate literal
+		if x.Parent() != nil && x.Parent().Parent() != nil {
+			return "", x, true
+		}
+	case *ssa.Alloc:
+		// … spilled because a field of it is selected
+		if x.Parent() != nil && x.Parent().Parent() != nil {
+			var src ssa.Value
+			n := 0
+			for _, u := range *x.Referrers() {
+				if st, isSt := u.(*ssa.Store); isSt && st.Addr == x {
+					src = st.Val
+					n++
+				}
+			}
+			if _, isParam := src.(*ssa.Parameter); isParam && n == 1 {
+				return "", src, true
+			}
+		}
 	}
 	return "", nil, false
 }
@@ -146,19 +166,23 @@ func ruleSeenKey(r *core.Reporter) {
 	})
 	compared := ""
 	var cmpPos ssa.Instruction
-	for _, ii := range ir.Ifs(hf) {
-		a := ii.Atom
-		if a.V != nil || a.Op != token.EQL {
-			continue
-		}
-		for _, pair := range [][2]ssa.Value{{a.X, a.Y}, {a.Y, a.X}} {
-			ch, _, ok := accessorChain(pair[0])
-			och, _, ok2 := accessorChain(pair[1])
-			if ok && ok2 && och == ".Value" && strings.HasPrefix(ch, ".GetURL()") {
-				compared = ch
-				cmpPos = ii.If
+	// the comparison may be an if condition or the result of a predicate
+	// literal handed to slices.ContainsFunc / IndexFunc
+	for _, fn := range withAnon(hf) {
+		allInstrs(fn, func(in ssa.Instruction) {
+			bo, isBO := in.(*ssa.BinOp)
+			if !isBO || bo.Op != token.EQL {
+				return
 			}
-		}
+			for _, pair := range [][2]ssa.Value{{bo.X, bo.Y}, {bo.Y, bo.X}} {
+				ch, _, ok := accessorChain(pair[0])
+				och, _, ok2 := accessorChain(pair[1])
+				if ok && ok2 && och == ".Value" && strings.HasPrefix(ch, ".GetURL()") {
+					compared = ch
+					cmpPos = in
+				}
+			}
+		})
 	}
 	switch {
 	case sent == "" || compared == "":
